@@ -103,6 +103,12 @@ def make_class(case):
     if case["private"]:
         ann["_hidden"] = int
         ns["_hidden"] = 3
+    if case.get("prep_scalars"):
+        # every scalar attribute has a preparer; where a collection's singular form had to fall back because it equals such an
+        # attribute's name, that preparer still belongs to the scalar attribute only
+        for a, t in effective(case):  # (managed attributes only: for an unmanaged name `_prepare_<name>` IS the element preparer)
+            if t == "int" and (a, "int") in attrs:
+                ns[f"_prepare_{a}"] = lambda self, v: v + 1000 if isinstance(v, int) and not isinstance(v, bool) else v
     if select == "skip" or select.endswith("+skip1"):
         ann["skipped"] = int
         ns["skipped"] = 0
@@ -388,6 +394,11 @@ def run_case(ctx, case):
             if changed != [a]:
                 ctx.fail("helper_targets_other_attribute", case, f"{n} belongs to {a!r} but changed {changed}")
                 return
+            coll = getattr(res, a)
+            stored = coll["k"] if t == "dict" else (list(coll)[-1] if t == "list" else (5 if 5 in coll else sorted(coll)[-1]))
+            if stored != 5:
+                ctx.fail("element_prepared_by_other_attribute", case, f"{n}(5) stored {stored!r} in {a!r}: an element went through a preparer that belongs to another attribute")
+                return
     # (5) a subclass that overrides a helper and reaches the generated one through super() keeps its override
     if case.get("sub"):
         kind, sub_names = case["sub"]
@@ -467,6 +478,8 @@ def enum_cases():
             yield base_case(attrs, select=select, eager=eager, private=private)
         for sw in (["init"], ["repr"], ["eq"], ["init", "repr", "eq"]):
             yield base_case(attrs, switches_off=sw, eager=False)
+        for eager in (True, False):
+            yield base_case(attrs, prep_scalars=True, eager=eager)
         for ud in (["__init__"], ["__repr__"], ["__eq__"], ["__new__"], ["__init__", "__repr__", "__eq__", "__new__"]):
             for eager in (True, False):
                 yield base_case(attrs, user_dunders=ud, eager=eager)
@@ -497,6 +510,7 @@ def case_strategy(draw):
         if src.chance(1, 2):
             c["split_mode"] = "bases"
         return c
+    c["prep_scalars"] = src.chance(1, 4)
     c["switches_off"] = [s for s in ("init", "repr", "eq") if src.chance(1, 6)]
     c["user_dunders"] = [d for d in ("__init__", "__repr__", "__eq__", "__new__") if src.chance(1, 5)]
     names, err = expected_names(effective(c))
